@@ -3,52 +3,79 @@ import OtelVerif.Props.C08
 /-!
 # C15 payload clause, linked to C08's proved marshalling theorems
 
-NOT part of `./check C15` (it imports `Props/C08.lean`, which belongs to another property and is built by `./check C08`);
-build on demand: `cd /verif/lean && flock .verif.lock lake build OtelVerif.Lemmas.C15Payload`.
+Part of `./check C15` (module in `lean_modules`, `otlpschema` translator in C15's spec): the theorems below are counted C15 obligations.
+The marshalling halves are C08's PROVED theorems for the schema regenerated from /repo; what the transport adds — a compression and,
+for JSON, the text layer — enters as explicit, NAMED hypotheses (`hcomp`, `htext`, `hT`), listed under `assumptions` in
+`lib/props/c15.py`, because nothing in this framework instantiates them (C16 samples the codec law, C08 samples the float/text law).
 -/
 namespace OtelVerif.C15
 open OtelVerif
 
-/-- a compression as the transports use it (gzip/zstd/snappy/… over the marshalled bytes): C16's lawful-codec hypothesis, stated
-over C08's byte type -/
-structure Compression where
-  compress : Wire.Bytes → Wire.Bytes
-  decompress : Wire.Bytes → Option Wire.Bytes
-  law : ∀ b, decompress (compress b) = some b
+/-- **Payload, protobuf transports (gRPC and HTTP/proto).** For every root of the regenerated schema (the four
+`Export*ServiceRequest`s that cross the hop, their responses, the bare payloads), every payload built through the public pdata API
+and every compression pair satisfying the codec law `hcomp`: what the receiver obtains by decompressing and running the root's
+`Unmarshal` (+ `otlp.Migrate*`) is exactly the payload the exporter marshalled.
+Partial: `hcomp` is C16's hypothesis (sampled there for gzip/zlib/zstd/snappy/lz4); HTTP/gRPC framing is exercised, not modelled. -/
+theorem C15_payload_pb_partial (compress : Wire.Bytes → Wire.Bytes) (decompress : Wire.Bytes → Option Wire.Bytes)
+    (hcomp : ∀ b, decompress (compress b) = some b)
+    (root : String) (m : Nat) (hroot : (root, m) ∈ C08.otlp.roots) (v : Proto.Val) (h : C08.ApiBuilt C08.otlp m v)
+    (hlen : (C08.encode C08.otlp m v).length < 2 ^ 63) :
+    (decompress (compress (C08.encode C08.otlp m v))).bind (C08.decodeRoot C08.otlp C08.otlpD root m) = some v := by
+  rw [hcomp, Option.bind_some]
+  -- C08: the wrapper's decode returns the payload; `Migrate*` is a no-op on API-built payloads (derived there, not assumed)
+  have hr := C08.C08_api_roots
+  simp only [List.all_eq_true] at hr
+  have hrm := hr (root, m) hroot
+  simp only [Bool.or_eq_true, Bool.not_eq_true', Bool.or_eq_false_iff] at hrm
+  refine C08.C08_wrappers_pb C08.otlp C08.otlpD C08.C08_schema_wf root m v h.1 hlen (fun hm => ?_)
+  refine C08.migrate_noop_api C08.otlp C08.C08_api_mig_shape m v (fun f rest hs => ?_) h.1 h.2
+  rcases hrm with ⟨h1, _⟩ | h3
+  · rw [h1] at hm; cases hm
+  · rw [hs] at h3; simpa using h3
 
-/-- **Payload, protobuf transports (gRPC and HTTP/proto).** For every export-request root of the schema regenerated from /repo
-(`logsreq`, `metricsreq`, `tracesreq`, `profilesreq` — and every other root), every payload built through the public pdata API, and
-every lawful compression: what the receiver decodes after decompressing is exactly what the exporter marshalled. The marshalling
-half is C08's PROVED theorem (`C08_wrappers_otlp_api`: `Unmarshal` + `otlp.Migrate*` after `Marshal`), not a hypothesis.
-Partial: the compression law is C16's hypothesis (sampled there); the HTTP/gRPC framing is exercised, not modelled. -/
-theorem C15_payload_pb_partial (comp : Compression) (T : C08.Txt) (hT : C08.TxtLaws T) (root : String) (m : Nat)
+/-- **Payload, HTTP/JSON.** The same through `MarshalJSON` / `UnmarshalJSON` of the root, for every text layer satisfying `htext`
+(what jsoniter writes, it reads back), every float/text pair satisfying C08's `TxtLaws` (`hT`) and every lawful compression: the
+receiver gets the payload with NaNs canonicalised (`normV`, C08).
+Partial: `hcomp`, `htext`, `hT` are hypotheses (sampled by C16 resp. C08's harness). -/
+theorem C15_payload_json_partial (compress : Wire.Bytes → Wire.Bytes) (decompress : Wire.Bytes → Option Wire.Bytes)
+    (hcomp : ∀ b, decompress (compress b) = some b)
+    (write : C08.Json → Wire.Bytes) (read : Wire.Bytes → Option C08.Json) (htext : ∀ j, read (write j) = some j)
+    (T : C08.Txt) (hT : C08.TxtLaws T) (root : String) (m : Nat)
     (hroot : (root, m) ∈ C08.otlp.roots) (v : Proto.Val) (h : C08.ApiBuilt C08.otlp m v)
     (hlen : (C08.encode C08.otlp m v).length < 2 ^ 63) :
-    (comp.decompress (comp.compress (C08.encode C08.otlp m v))).bind (C08.decodeRoot C08.otlp C08.otlpD root m) = some v := by
-  rw [comp.law, Option.bind_some]
-  exact (C08.C08_wrappers_otlp_api T hT root m hroot v h hlen).1
-
-/-- the JSON text layer (jsoniter writing/reading the document): a lawful pair, hypothesis -/
-structure JsonText where
-  write : C08.Json → Wire.Bytes
-  read : Wire.Bytes → Option C08.Json
-  law : ∀ j, read (write j) = some j
-
-/-- **Payload, HTTP/JSON.** The same through `MarshalJSON` / `UnmarshalJSON` of the request root: the receiver gets the payload
-with NaNs canonicalised (`normV`, C08). Partial: text layer and compression laws are hypotheses; float↔text is C08's `TxtLaws`. -/
-theorem C15_payload_json_partial (comp : Compression) (jt : JsonText) (T : C08.Txt) (hT : C08.TxtLaws T) (root : String) (m : Nat)
-    (hroot : (root, m) ∈ C08.otlp.roots) (v : Proto.Val) (h : C08.ApiBuilt C08.otlp m v)
-    (hlen : (C08.encode C08.otlp m v).length < 2 ^ 63) :
-    ((comp.decompress (comp.compress (jt.write (C08.toJson C08.otlp T m v)))).bind jt.read).bind
+    ((decompress (compress (write (C08.toJson C08.otlp T m v)))).bind read).bind
         (C08.fromJsonRoot C08.otlp T C08.otlpD root m)
       = some (C08.normV C08.otlp (.slots (C08.otlp.slots m)) v) := by
-  rw [comp.law, Option.bind_some, jt.law, Option.bind_some]
+  rw [hcomp, Option.bind_some, htext, Option.bind_some]
   exact (C08.C08_wrappers_otlp_api T hT root m hroot v h hlen).2
 
-/-- non-vacuity: the four request roots exist in the regenerated schema, and a lawful compression exists -/
+/-! ## non-vacuity -/
+
+/-- the four request roots the exporters send exist in the regenerated schema -/
 example : ("logsreq", 1) ∈ C08.otlp.roots ∧ ("metricsreq", 4) ∈ C08.otlp.roots ∧ ("tracesreq", 10) ∈ C08.otlp.roots ∧
     ("profilesreq", 7) ∈ C08.otlp.roots := by decide
-example : Compression := ⟨id, some, fun _ => rfl⟩
 
+theorem lookup_mem {β : Type} : ∀ {l : List (String × β)} {k : String} {v : β}, l.lookup k = some v → (k, v) ∈ l
+  | [], _, _, h => by simp [List.lookup] at h
+  | (k', v') :: rest, k, v, h => by
+    by_cases hk : k = k'
+    · subst hk
+      simp [List.lookup] at h
+      subst h
+      exact List.mem_cons_self ..
+    · have : (k == k') = false := by simpa using hk
+      simp only [List.lookup, this] at h
+      exact List.mem_cons_of_mem _ (lookup_mem h)
+
+/-- the hypotheses of `C15_payload_pb_partial` are met at the real schema: a root of the hop (`ExportLogsServiceResponse` with a
+partial-success body — C08's `C08_apibuilt_example`), a payload that is `ApiBuilt`, and a compression pair with the law (identity);
+the theorem then yields the round trip for it. -/
+theorem C15_payload_nonvacuous :
+    ∃ (root : String) (m : Nat) (v : Proto.Val), (root, m) ∈ C08.otlp.roots ∧ C08.ApiBuilt C08.otlp m v ∧
+      ((C08.encode C08.otlp m v).length < 2 ^ 63 →
+        (some (C08.encode C08.otlp m v)).bind (C08.decodeRoot C08.otlp C08.otlpD root m) = some v) := by
+  obtain ⟨m, hm, hv⟩ := C08.C08_apibuilt_example
+  refine ⟨"logsresp", m, _, lookup_mem hm, hv, fun hlen => ?_⟩
+  exact C15_payload_pb_partial id some (fun _ => rfl) "logsresp" m (lookup_mem hm) _ hv hlen
 
 end OtelVerif.C15
